@@ -153,9 +153,11 @@ func (r *rdbdriver) findMapInSortedData(domain, mtype []byte, context Context) (
 		} else {
 			length = findCommonLongestPrefix(reversedZone, foundLabel)
 		}
-		if length == 0 {
+		if length == 0 && currentLength == 1 {
+			// the root has no parent
 			break
 		}
+		// length == 0: nothing in common but the root, whose wildcard map is tried last
 
 		// k already has necessary data - we just need to cut it at proper point
 		k[prefixLen+length] = 0
